@@ -82,15 +82,21 @@ func (pc *PeerConn) Send(msg wire.Message) bool {
 	if _, err := wire.WriteMessageN(&buf, msg, wire.ProtocolVersion, simNet); err != nil {
 		panic(fmt.Sprintf("peer model: encode %s: %v", msg.Command(), err))
 	}
-	pc.sentOff += uint64(buf.Len())
-	ev := WireEvent{At: simrt.S.Now(), Seq: simrt.S.Seq, Conn: pc, Msg: msg, EndOff: pc.sentOff}
-	pc.Sent = append(pc.Sent, ev)
-	pc.P.sim.noteSent(ev)
-	if _, err := pc.C.Write(buf.Bytes()); err != nil {
-		pc.Dead = true
-		return false
-	}
-	return true
+	// bookkeeping and write are one step for the scheduler: with several model tasks sending on
+	// one connection (reader, pinger, scenario) the recorded offsets must be the order of the bytes
+	// on the stream
+	ok := true
+	simrt.NoPreempt(func() {
+		pc.sentOff += uint64(buf.Len())
+		ev := WireEvent{At: simrt.S.Now(), Seq: simrt.S.Seq, Conn: pc, Msg: msg, EndOff: pc.sentOff}
+		pc.Sent = append(pc.Sent, ev)
+		pc.P.sim.noteSent(ev)
+		if _, err := pc.C.Write(buf.Bytes()); err != nil {
+			pc.Dead = true
+			ok = false
+		}
+	})
+	return ok
 }
 
 // LastConsumedHeaders returns the last non-empty headers message whose bytes the node has
